@@ -373,10 +373,22 @@ func ruleFilterEmit(c *Ctx, rule string) {
 							empty = true
 						}
 					}
-					tested := everyPathPasses(fn, x, isCmp, isEmptyEdge)
+					tested := everyPathPasses(fn, x, viaCalls(isCmp), isEmptyEdge)
+					reports := false
+					for _, g := range privateReach(fn) {
+						for _, gb := range g.Blocks {
+							for _, gi := range gb.Instrs {
+								if gc, ok := gi.(*ssa.Call); ok && gc.Call.StaticCallee() == addHit {
+									reports = true
+								}
+							}
+						}
+					}
 					switch {
 					case empty:
 						c.triv(rule, key, x.Pos(), "the tube is known to be empty here")
+					case tested && !reports:
+						c.bad(rule, key, x.Pos(), "a tube is retired here after its Count was compared with minKmersPerHit, but nothing this function executes calls addHit: a run that reached the threshold is discarded without being reported")
 					case tested:
 						c.ok(rule, key, x.Pos(), "every path that retires the tube has compared its Count with minKmersPerHit")
 					default:
@@ -386,8 +398,8 @@ func ruleFilterEmit(c *Ctx, rule string) {
 			}
 		}
 	}
-	if nEmit < 3 {
-		c.und(rule, "filter/addHit-sites", token.NoPos, fmt.Sprintf("found %d emission sites, expected 3 (restart, tube end, final flush)", nEmit))
+	if nEmit < 1 || nReset < 1 {
+		c.und(rule, "filter/addHit-sites", token.NoPos, fmt.Sprintf("found %d emission sites and %d retirements of a tube, expected at least one of each", nEmit, nReset))
 	}
 }
 
